@@ -69,7 +69,10 @@ class Scenario:
     # ---- lookup used by handlers
     def lookup(self, side):
         sid = self.world.last_recv_sid.get(side)
-        uid = self.world.sid_map.get((OTHER[side], sid))
+        q = self.world.sid_queue.get((OTHER[side], sid))
+        # ids are reused after wrap-around and frames may be delivered late: the k-th request received on an id belongs
+        # to the k-th interaction issued with it (per-stream wire order is FIFO)
+        uid = q.popleft() if q else None
         return sid, uid
 
 
@@ -195,6 +198,12 @@ def _scn_methods():
                                 none_for_empty=self.none_empty)
             st['libpub'][dirn] = p
             return p
+        if kind in ('rx3', 'rx4', 'rx3bp', 'rx4bp'):
+            p = L['rx_source'](self.world, side, uid, dirn, tag, els, 'error' if end == 'error' else 'sep',
+                               version=int(kind[2]), backpressure=kind.endswith('bp'), err_at=src.get('err_at'),
+                               none_for_empty=self.none_empty)
+            st['libpub'][dirn] = p
+            return p
         raise HarnessError('unknown source kind %r' % kind)
 
     def make_subscriber(self, uid, side, dirn, spec, request_on_subscribe=False):
@@ -252,13 +261,13 @@ def _scn_methods():
             if k == 'rr':
                 fut = sock.request_response(payload)
                 st['sid'] = sc._current_stream_id
-                world.sid_map[(side, st['sid'])] = uid
+                world.bind(side, st['sid'], uid)
                 st['fut'] = fut
                 fut.add_done_callback(lambda f: self._rr_done(uid, side, f))
             elif k == 'fnf':
                 fut = sock.fire_and_forget(payload)
                 st['sid'] = sc._current_stream_id
-                world.sid_map[(side, st['sid'])] = uid
+                world.bind(side, st['sid'], uid)
                 st['fut'] = fut
                 fut.add_done_callback(lambda f: world.ev(side, 'fnf_sent', uid=uid, cancelled=f.cancelled()))
             elif k == 'mp':
@@ -268,7 +277,7 @@ def _scn_methods():
             elif k == 'st':
                 req = sock.request_stream(payload)
                 st['sid'] = req.stream_id
-                world.sid_map[(side, st['sid'])] = uid
+                world.bind(side, st['sid'], uid)
                 sub = self.make_subscriber(uid, side, 'resp', spec.get('sub', {}))
                 req.initial_request_n(sub.n0)
                 sub.requested = sub.n0
@@ -279,7 +288,7 @@ def _scn_methods():
                 pub = self.make_source(uid, side, 'req', rsrc) if rsrc is not None else None
                 req = sock.request_channel(payload, pub)
                 st['sid'] = req.stream_id
-                world.sid_map[(side, st['sid'])] = uid
+                world.bind(side, st['sid'], uid)
                 sub = self.make_subscriber(uid, side, 'resp', spec.get('sub', {}))
                 req.initial_request_n(sub.n0)
                 sub.requested = sub.n0
@@ -471,7 +480,7 @@ async def _execute(loop, program, observe=None):
                         if p.can_emit():
                             p.emit(4)
                             progressed = True
-                        elif p.remaining() == 0 and p.can_end() and p.end_mode != 'flag':
+                        elif p.remaining() == 0 and p.can_end():
                             p.end()
                             progressed = True
                     if st['spec']['k'] == 'rr' and st['spec'].get('resp', {}).get('mode') == 'manual':
@@ -496,6 +505,7 @@ async def _execute(loop, program, observe=None):
             else:
                 stale = 0
 
+    world.frozen = True
     tr = Trace()
     tr.world = world
     tr.scn = scn
